@@ -209,28 +209,34 @@ def check_settled(run, info, bad, phase):
                 if any(b < a for a, b in zip(v, v[1:])):
                     fail("ack-prefix-decreased", f"connection {name} {side}: {v}")
     # memory
-    leak_unaccounted = 0
+    f14 = 0
     for ent in info.get("mem", "").split(","):
-        t, mx, fin, lim, waiters, acc = (int(x) for x in ent.split(":"))
+        t, mx, fin, lim, waiters, acc, pred = (int(x) for x in ent.split(":"))
         if mx > lim:
             fail("memory-limit", f"transport {t}: acquiredMemory reached {mx} > limit {lim}")
         if fin != 0 or waiters != 0:
             if mode == "r" and phase == "settle":
                 continue  # judged after the flush phase (the peers of restarted connections have to hear from them)
-            if mode == "r" and fin > acc and int(info.get("inlive", "0")) == 0 and waiters == 0:
-                leak_unaccounted += fin - acc
-                if acc == 0:
-                    continue
-            fail("memory-not-released", f"transport {t}: acquiredMemory={fin} (held by connections: {acc}) waiters={waiters} after settling")
-    if leak_unaccounted:
-        fail("reservation-leak", f"acquiredMemory keeps {leak_unaccounted} bytes that no connection accounts for, no live buffer, all idle", F14)
+            # F14 = exactly what resetGoReadUnlockedState fails to release (computed by the harness at every reset:
+            # reserved range minus allocated message buffers), nothing else held, nobody waiting, no live buffer
+            if (mode == "r" and pred > 0 and fin == pred and acc == 0 and waiters == 0
+                    and int(info.get("inlive", "0")) == 0):
+                f14 += fin
+                continue
+            fail("memory-not-released", f"transport {t}: acquiredMemory={fin} after settling; held by live connections: {acc}, "
+                                        f"predicted by the known reset leak (F14): {pred}, waiters={waiters}")
+    if f14:
+        fail("reservation-leak", f"acquiredMemory keeps {f14} bytes = exactly the reserved-but-unallocated ranges of the connections "
+                                 f"that were reset ({info.get('resets')} resets), no live buffer, no waiter, all idle", F14)
     if info.get("acct", "ok") != "ok":
-        if mode == "r":
-            # with restarts the only known way to break the accounting is the leak reported above (F14)
-            if not leak_unaccounted and phase == "flush":
-                fail("accounting", f"acquiredMemory != sum over connections (transport:step:acquired:sum = {info['acct']})")
-        else:
-            fail("accounting", f"acquiredMemory != sum over connections (transport:step:acquired:sum = {info['acct']})")
+        fail("accounting", "acquiredMemory != memory held by live connections + predicted reset leak "
+                           f"(transport:step:acquired:held:predicted = {info['acct']})")
+    # what was submitted after the restarts had settled must arrive
+    if phase == "flush" and info.get("flushsent", "-") != "-":
+        for ent in info["flushsent"].split(";"):
+            k, dg = ent.split(":")
+            if dg not in recv.get(k, []):
+                fail("lost-after-restart", f"connection {k}: message {dg} submitted after the restarts settled was never delivered")
     if not (mode == "r" and phase == "settle"):
         if info.get("inlive") != "0":
             fail("incoming-buffer-leak", f"{info.get('inlive')} of {info.get('inalloc')} incoming message buffers neither handed to the handler nor deallocated")
